@@ -81,6 +81,9 @@ CASES = [
     M('C03', 'sender bandwidth in the wait', (T, "            transfer_time = self.io[task.id] / machine.bandwidth", "            transfer_time = self.io[task.id] / task.bandwidth")),
     M('C03', 'subset test weakened to intersection', (GR, "                    if not pred.issubset(finished):", "                    if not pred.intersection(finished):")),
     W('C03', 'counting test rewritten', (QA, "                        if count < len(list(pred)):", "                        if not count >= len(list(pred)):")),
+    M('C03', 'watcher blocks on the work process', (C, "                    yield self.env.timeout(1)\n            if ret.triggered:", "                    yield self.env.timeout(1)\n                    if not ret.triggered:\n                        yield ret\n            if ret.triggered:")),
+    M('C03', 'submitted task not recorded', (S, "                allocation_pairs[task.id] = (task, machine)\n", "")),
+    M('C03', 'recorded with the planned machine', (S, "                allocation_pairs[task.id] = (task, machine)\n", "                allocation_pairs[task.id] = (task, self.cluster.get_machine_from_id(task.allocated_machine_id))\n")),
     # ---------------- C04
     M('C04', 'hand-off without pop',
       (B, "            self.observations['scheduled'].append(self.observations['stored'].pop())", "            self.observations['scheduled'].append(self.observations['stored'][-1])")),
@@ -92,6 +95,14 @@ CASES = [
     W('C04', 'scheduler SCHEDULED write removed (cluster still writes it)', (S, "                task.task_status = TaskStatus.SCHEDULED\n", "")),
     M('C04', 'hand-off returns the oldest scheduled observation', (B, "            return self.observations['scheduled'][-1]", "            return self.observations['scheduled'][0]")),
     W('C04', 'hand-off returns the popped observation itself', (B, "            self.observations['scheduled'].append(self.observations['stored'].pop())\n            return self.observations['scheduled'][-1]", "            obs = self.observations['stored'].pop()\n            self.observations['scheduled'].append(obs)\n            return obs")),
+    M('C04', 'submitted proposal stays in the schedule', (S, "                schedule.pop(task, None)\n", "")),
+    M('C04', 'schedule not submitted', (S, "                schedule, allocation_pairs = self._process_current_schedule(\n                    schedule, allocation_pairs, current_plan.id)\n", "                pass\n")),
+    M('C04', 'allocation loop left when NOT finished', (S, "            if finished:\n                # We have finished this observation", "            if not finished:\n                # We have finished this observation")),
+    M('C04', 'completion does not mark FINISHED', (C, "                task.task_status = TaskStatus.FINISHED\n                task.delay_flag = task.delay_flag", "                task.delay_flag = task.delay_flag")),
+    M('C04', 'open-ended start takes the bounded branch', (SIM, "        if runtime > 0:\n            self.env.run(until=runtime)", "        if not runtime > 0:\n            self.env.run(until=runtime)")),
+    M('C04', 'take-over when nothing is ready', (S, "            if self.buffer.has_observations_ready_for_processing():", "            if not self.buffer.has_observations_ready_for_processing():")),
+    W('C04', 'allocation loop as while-not-finished', (S, "        while True:\n            current_plan.tasks = self._update_current_plan(current_plan)", "        finished = False\n        while not finished:\n            current_plan.tasks = self._update_current_plan(current_plan)"),
+      (S, "            if finished:\n                # We have finished this observation\n                # LOGGER.info(f'{observation.name} Removed from Queue @'\n                #             f'{self.env.now}')\n                # self.cluster.release_batch_resources(observation)\n                break\n", "            if finished:\n                continue\n")),
     # ---------------- C05
     M('C05', 'release of the ingest reservation dropped', (S, "            self.provision_ingest -= pipeline_demand\n", "")),
     M('C05', 'loop yield made conditional', (S, "            yield self.env.timeout(1)\n\n        if RunStatus.FINISHED:", "            if time_left > 0:\n                yield self.env.timeout(1)\n\n        if RunStatus.FINISHED:")),
@@ -101,6 +112,11 @@ CASES = [
     M('C05', 'constructor loses an attribute the loop reads', (B, "        self.threshold = 0.6\n", "")),
     M('C05', 'local read before any assignment', (S, "        time_left = observation.duration - 1\n        while ingest_observation", "        while ingest_observation")),
     W('C05', 'attribute moved to a class-level default', (B, "        self.threshold = 0.6\n", "        type(self).threshold = 0.6\n")),
+    M('C05', 'scheduler loop runs while NOT running', (S, "        while self.status is SchedulerStatus.RUNNING:", "        while self.status is not SchedulerStatus.RUNNING:")),
+    M('C05', 'monitor loop while False', (MON, "    def run(self):\n        while True:", "    def run(self):\n        while False:")),
+    M('C05', 'successors never enter the pool', (QA, "        task_pool.update(added)\n", "")),
+    M('C05', 'successors of root tasks forgotten', (BA, "                            removed.add(task)\n                            added.update(workflow_plan.graph.successors(task))\n                        else:", "                            removed.add(task)\n                        else:")),
+    W('C05', 'pool fed through a list of proposed tasks', (QA, "        task_pool -= removed\n        task_pool.update(added)\n", "        task_pool -= removed\n        for done in removed:\n            task_pool.update(workflow_plan.graph.successors(done))\n")),
     # ---------------- C06
     M('C06', 'timeout(total) instead of total - 1', (T, "            yield env.timeout(total_duration - 1)", "            yield env.timeout(total_duration)")),
     M('C06', 'max -> min', (T, "        return  max(compute_time, data_time)", "        return  min(compute_time, data_time)")),
@@ -118,6 +134,7 @@ CASES = [
       (B, "        if int(incoming_datarate) > self.max_ingest_data_rate:\n            raise ValueError(\n                'Incoming data rate {0} exceeds maximum.'.format(\n                    incoming_datarate)\n            )\n\n        self.current_capacity -= incoming_datarate",
        "        self.current_capacity -= incoming_datarate\n        if int(incoming_datarate) > self.max_ingest_data_rate:\n            raise ValueError(\n                'Incoming data rate {0} exceeds maximum.'.format(\n                    incoming_datarate)\n            )\n")),
     W('C07', 'rate hoisted into a local', (B, "            observation.total_data_size += observation.ingest_data_rate\n", "            rate = observation.ingest_data_rate\n            observation.total_data_size += rate\n")),
+    M('C07', 'last step does not store the observation', (B, "                self.hot[b].observations[\"stored\"].append(observation)\n", "")),
     # ---------------- C08
     M('C08', 'is_ready loses the array test', (INS, "        if self.est <= current_time \\\n                and self.demand <= capacity \\\n                and self.status", "        if self.est <= current_time \\\n                and self.status")),
     M('C08', 'cluster check and -> or', (C, "                   'available']) >= pipeline_demand and len(", "                   'available']) >= pipeline_demand or len(")),
@@ -134,6 +151,8 @@ CASES = [
       (C, "        if observation in self._clusters[c]['resources']['idle']:\n            self._clusters[c]['resources']['idle'][observation].append(machine)\n        else:\n            self._clusters[c]['resources']['available'].append(machine)",
        "        self._clusters[c]['resources']['available'].append(machine)")),
     M('C09', 'minimum test dropped', (BA, "                if provision < self.min_resource_per_workflow:\n                    return False\n                else:", "                if True:")),
+    M('C09', 'reservation not counted', (C, "        self.num_provisioned_obs += 1\n        return True", "        return True")),
+    M('C09', 'count lowered without dropping the key', (C, "        if self._clusters[c]['resources']['idle'][observation]:\n            self._clusters[c]['resources']['idle'].pop(observation)\n            self.num_provisioned_obs -= 1", "        if self._clusters[c]['resources']['idle'][observation]:\n            self._clusters[c]['resources']['idle'].pop(observation)\n        self.num_provisioned_obs -= 1")),
     # ---------------- C10
     M('C10', 'sorted removed again', (BA, "            for task in sorted(task_pool, key=lambda t: t.id):", "            for task in task_pool:")),
     M('C10', 'bare default_rng()', (DLY, "            if default_rng(self.seed).random() < self.prob:", "            if default_rng().random() < self.prob:")),
@@ -160,6 +179,7 @@ CASES = [
     M('C13', 'a list not collated', (MON, "        if self.simulation.buffer.events:\n            self.events = pd.concat([self.events,\n                                    pd.DataFrame(self.simulation.buffer.events)])\n            self.simulation.buffer.events = []\n", "")),
     M('C13', 'producer-side clear re-added to Buffer.run', (B, "        while True:\n            if self.env.now % 1000 == 0:\n                LOGGER.debug(\n                    \"\\nHotBuffer", "        while True:\n            self.events = []\n            if self.env.now % 1000 == 0:\n                LOGGER.debug(\n                    \"\\nHotBuffer")),
     W('C13', 'emit moved within its block', (S, "                    ret = self.env.process(self.allocate_tasks(obs))\n                    self._add_event(obs, \"queue\", \"added\")", "                    self._add_event(obs, \"queue\", \"added\")\n                    ret = self.env.process(self.allocate_tasks(obs))")),
+    M('C13', 'instrument events collected only when there are none', (MON, "        if self.simulation.instrument.events:", "        if not self.simulation.instrument.events:")),
     # ---------------- C14
     M('C14', 'predecessors built from successors', (BP, "                pred = list(graph.predecessors(task))", "                pred = list(graph.successors(task))")),
     M('C14', 'wrong node attribute', (BP, "                task_compute =  graph.nodes[task]['comp']", "                task_compute =  graph.nodes[task].get('task_data', 0)")),
@@ -170,6 +190,7 @@ CASES = [
     M('C15', 'seed dropped in the normal branch', (DLY, "            s = default_rng(self.seed).normal(mu, sigma, n)", "            s = default_rng().normal(mu, sigma, n)")),
     M('C15', 'delay_flag write dropped', (T, "        if self.duration < total_duration:\n            self.delay_flag = True\n", "        if self.duration < total_duration:\n")),
     M('C15', 'DELAYED branch dropped', (S, "                if t.delay_flag:\n                    self.schedule_status = ScheduleStatus.DELAYED\n", "                if t.delay_flag:\n")),
+    M('C15', 'delay flags examined only on the finished head of the plan', (S, "            else:\n                if t.delay_flag:\n                    self.schedule_status = ScheduleStatus.DELAYED\n                    self.delay_offset += t.delay_offset", "                break\n            if t.delay_flag:\n                self.schedule_status = ScheduleStatus.DELAYED\n                self.delay_offset += t.delay_offset")),
     # ---------------- C16
     M('C16', '3600 -> 360 in the buffer ladder', (CFG, "            timestep_multiplier = 3600\n        elif isinstance(self.timestep_unit, int):\n            # This is a custom unit\n            timestep_multiplier = self.timestep_unit\n        else:  # Seconds\n            timestep_multiplier = timestep_multiplier\n\n        hot",
                                                   "            timestep_multiplier = 360\n        elif isinstance(self.timestep_unit, int):\n            # This is a custom unit\n            timestep_multiplier = self.timestep_unit\n        else:  # Seconds\n            timestep_multiplier = timestep_multiplier\n\n        hot")),
